@@ -4,3 +4,5 @@ open WebPkg.C02
 #print axioms write_fails_iff
 #print axioms encodeBytesUint_ok_iff
 #print axioms decode3_encode3
+#print axioms verify_invariant
+#print axioms honest_verifies
